@@ -17,6 +17,10 @@ def catalogue(rep, tier, n_random):
     lib.tlc_expect_ok(rt, "Abi trait objects")
     rep.add_tlc("Abi/trait", rt)
     cases = cases + rt.printed["CASE"]
+    rl = lib.tlc("abi", "MC_Abi", "abi_strs.cfg", workers=2, coverage=False)
+    lib.tlc_expect_ok(rl, "Abi lists of strings")
+    rep.add_tlc("Abi/strs", rl)
+    cases = cases + rl.printed["CASE"]
     rs = lib.tlc("abi", "MC_Abi", "abi_random.cfg", workers=1, coverage=False, simulate=100, depth=8)
     lib.tlc_expect_ok(rs, "Abi random")
     rep.add_tlc("Abi/random", rs)
